@@ -348,6 +348,18 @@ func (w *World) build(c PCell, r *rand.Rand) (*Served, *RawReq, UpScript, map[st
 		q.Target += "?" + query
 	}
 	q.Lines = append(q.Lines, xfpLines(c.Xfp, r)...)
+	// headers any client can send: "the same host" is the Host the request came in on, whatever they claim
+	if r.Intn(3) == 0 {
+		claim := pick(r, "evil.example.net", "other.sso.test", "evil.example.net, "+host, host+".evil.example.net")
+		switch r.Intn(3) {
+		case 0:
+			q.Lines = append(q.Lines, [2]string{"X-Forwarded-Host", claim})
+		case 1:
+			q.Lines = append(q.Lines, [2]string{"Forwarded", "host=" + claim + ";proto=http"})
+		default:
+			q.Lines = append(q.Lines, [2]string{"X-Forwarded-Host", claim}, [2]string{"X-Forwarded-Server", claim}, [2]string{"X-Original-Host", claim})
+		}
+	}
 	if xhr {
 		q.Lines = append(q.Lines, [2]string{"X-Requested-With", "XMLHttpRequest"})
 	}
